@@ -244,6 +244,13 @@ func (hostsafe) Stages(plan any) error {
 
 // --- minimisation --------------------------------------------------------------
 
+func min2(a, b int) int {
+	if a < b {
+		return a
+	}
+	return b
+}
+
 func shrinkBytes(b []byte) [][]byte {
 	var out [][]byte
 	if len(b) == 0 {
@@ -256,6 +263,16 @@ func shrinkBytes(b []byte) [][]byte {
 		sep = ";"
 	}
 	parts := strings.SplitAfter(string(b), sep)
+	if len(parts) > 256 {
+		// a very long source: coarse groups first (every candidate is a copy of the text); later
+		// rounds work on what is left with finer ones
+		g := (len(parts) + 255) / 256
+		var grouped []string
+		for i := 0; i < len(parts); i += g {
+			grouped = append(grouped, strings.Join(parts[i:min2(i+g, len(parts))], ""))
+		}
+		parts = grouped
+	}
 	if len(parts) > 1 {
 		for _, c := range core.DropChunks(parts, 0) {
 			out = append(out, []byte(strings.Join(c, "")))
